@@ -23,20 +23,25 @@ ST = "pandapipes.std_types.std_type_class"
 PT = "pandapipes.properties.properties_toolbox"
 
 EXPLANATION = (
-    "(R19.1) get_at_integral_value of every fluid-property class is translated to a normal form (for each answer of "
-    "its isinstance tests); swapping the two limits must negate it, and where the property value is an explicit "
-    "expression (constant, linear) the derivative of the integral with respect to the upper limit must equal "
-    "get_at_value. (R19.2) in the arm where isinstance(x, pd.Series) is false, x is not used through Series-only "
-    "attributes. (R19.3) both arms of np.iterable(v) in PumpStdType.get_pressure reduce to select(v < 0, 0, "
-    "max(0, SUM(reg_par * (3600 v)^(n-1)))). (R19.4) for every library fluid the slope in compressibility.txt equals "
-    "der_compressibility.txt, tabulated x values are finite and strictly increasing, and every fluid named in "
-    "_LIQUIDS/_GASES has the files call_lib opens. (R19.5) create_pipe(s) write the values of load_std_type (through "
-    "retrieve_u) unless the deprecated keyword arguments override them. (R19.6, thorough) with SUM as an opaque linear "
-    "operator the 1-d and 2-d arms of each calculate_mixture_* agree and equal the documented rule; the mass fraction "
-    "is x M / SUM(x M). (R19.8) result buffers of the library classes that are filled with computed values are float by construction "
-    "(not *_like / asarray of the caller's argument without dtype=float). (R19.7) the assumption that interp1d interpolates linearly through the tabulated points holds "
-    "for its defaults only: every call site of scipy's interp1d in the package keeps kind linear, leaves assume_sorted "
-    "False (so any table order is reproduced) and passes no silent constant fill. Not decided: interpolation values (SciPy), bounds of mixture values.")
+    '(R19.1) get_at_integral_value of every fluid-property class is translated to a normal form (for each answer of its '
+    'isinstance tests); swapping the two limits must negate it, and where the property value is an explicit expression '
+    '(constant, linear) the derivative of the integral with respect to the upper limit must equal get_at_value. (R19.2) '
+    'in the arm where isinstance(x, pd.Series) is false, x is not used through Series-only attributes. (R19.3) both arms '
+    'of np.iterable(v) in PumpStdType.get_pressure reduce to select(v < 0, 0, max(0, SUM(reg_par * (3600 v)^(n-1)))). '
+    '(R19.4) for every library fluid the slope in compressibility.txt equals der_compressibility.txt, tabulated x values '
+    'are finite and strictly increasing, and every fluid named in _LIQUIDS/_GASES has the files call_lib opens. (R19.5) '
+    'create_pipe(s) write the values of load_std_type (through retrieve_u) unless the deprecated keyword arguments '
+    'override them. (R19.6, thorough) with SUM as an opaque linear operator the 1-d and 2-d arms of each '
+    'calculate_mixture_* agree and equal the documented rule; the mass fraction is x M / SUM(x M). (R19.8) result buffers'
+    ' of the library classes that are filled with computed values are float by construction (not *_like / asarray of the '
+    "caller's argument without dtype=float). (R19.7) the assumption that interp1d interpolates linearly through the "
+    "tabulated points holds for its defaults only: every call site of scipy's interp1d in the package keeps kind linear, "
+    'leaves assume_sorted False (so any table order is reproduced) and passes no silent constant fill. (R19.9) the '
+    'calculate_* mixture functions and the get_at_value / get_at_integral_value methods do not modify the arrays handed '
+    'to them: a statement-ordered alias walk (parameter names, np.asarray / ravel / reshape / view / .values / basic '
+    'slices of an alias; a name rebound to a fresh value stops being an alias) reports augmented assignments, item '
+    'stores, out= arguments and in-place methods on an alias. Not decided: interpolation values (SciPy), bounds of '
+    'mixture values.')
 ASSUMPTIONS = ["scipy.interpolate.interp1d interpolates linearly and extrapolates linearly with fill_value='extrapolate'",
                "np.sum / sum are linear"]
 TECHNIQUE = "normal forms with limit-swap substitution and symbolic differentiation; guarded comparison of sibling arms; parsing of library data files"
